@@ -6,6 +6,7 @@ import (
 	"math/rand"
 	"os"
 	"strconv"
+	"sync"
 	"testing"
 
 	"github.com/cespare/xxhash"
@@ -125,14 +126,34 @@ func checkFreshRandom(x index, df, th int, rnd *rand.Rand) (string, string) {
 		return "hash", fmt.Sprintf("Hash()=%s, a freshly filled index with the same %d elements has %s", x.Hash(), len(f.Elements()), f.Hash())
 	}
 	ts := rangesToCheck(x, f, df, rnd, 3000)
-	px, pf := probeIndex(x, ts), probeIndex(f, ts)
+	plain := make([]rreq, len(ts))
 	for i, t := range ts {
-		if w := compareAnswers(px.Plain[i], pf.Plain[i]); w != "" {
-			return "range-" + w, fmt.Sprintf("Ranges([%d,%d]) differs from the fresh index in %s (count %d vs %d)", t.From, t.To, w, px.Plain[i].Count, pf.Plain[i].Count)
+		plain[i] = rreq{t, false}
+	}
+	ax, af := x.Ranges(plain), f.Ranges(plain)
+	var withEls []rreq
+	big := 0
+	for i, t := range ts {
+		if w := compareAnswers(ax[i], af[i]); w != "" {
+			return "range-" + w, fmt.Sprintf("Ranges([%d,%d]) differs from the fresh index in %s (count %d vs %d)", t.From, t.To, w, ax[i].Count, af[i].Count)
 		}
-		if w := compareAnswers(px.WithEls[i], pf.WithEls[i]); w != "" {
-			return "range-els-" + w, fmt.Sprintf("Ranges([%d,%d],Elements) differs from the fresh index in %s", t.From, t.To, w)
+		// element lists: every small range, a few large ones (a large list is compared once, not per level)
+		if af[i].Count <= 512 {
+			withEls = append(withEls, rreq{t, true})
+		} else if big < 4 {
+			big++
+			withEls = append(withEls, rreq{t, true})
 		}
+	}
+	for len(withEls) > 0 {
+		n := min(len(withEls), 256)
+		ex, ef := x.Ranges(withEls[:n]), f.Ranges(withEls[:n])
+		for i := range ex {
+			if w := compareAnswers(ex[i], ef[i]); w != "" {
+				return "range-els-" + w, fmt.Sprintf("Ranges([%d,%d],Elements) differs from the fresh index in %s", withEls[i].From, withEls[i].To, w)
+			}
+		}
+		withEls = withEls[n:]
 	}
 	return "", ""
 }
@@ -427,7 +448,7 @@ func randomCases(kind string, seed int64, thorough bool) []randCase {
 	}
 	reps := 1
 	if thorough {
-		reps = 4
+		reps = 3
 	}
 	for r := 0; r < reps; r++ {
 		for pi, p := range paramPairs {
@@ -443,7 +464,7 @@ func randomCases(kind string, seed int64, thorough bool) []randCase {
 	// large sets
 	big := [][3]int{{32, 256, 10000}, {2, 1, 2000}}
 	if thorough {
-		big = [][3]int{{32, 256, 50000}, {32, 256, 20000}, {2, 1, 12000}, {3, 2, 20000}, {4, 3, 30000}, {8, 8, 50000}, {16, 64, 50000}, {64, 8, 40000}, {5, 4, 25000}}
+		big = [][3]int{{32, 256, 50000}, {2, 1, 12000}, {3, 2, 20000}, {8, 8, 50000}, {16, 64, 30000}, {64, 8, 30000}, {5, 4, 25000}}
 	}
 	for _, b := range big {
 		for _, skew := range []int{0, 10} {
@@ -474,15 +495,43 @@ func testRandom(t *testing.T, kind string) {
 	j := &judge{rep: rep, property: prop}
 	cs := randomCases(kind, vfutil.Seed(), vfutil.Thorough())
 	maxN := 0
+	// the cases are independent: run them on a few workers (every case is deterministic in its seed)
+	var wg sync.WaitGroup
+	var pmu sync.Mutex
+	var harnessPanic any
+	next := make(chan randCase)
+	for w := 0; w < 6; w++ {
+		wg.Add(1)
+		go func() {
+			defer wg.Done()
+			for c := range next {
+				func() {
+					defer func() {
+						if p := recover(); p != nil {
+							pmu.Lock()
+							harnessPanic = p
+							pmu.Unlock()
+						}
+					}()
+					runRandomCase(j, c)
+					rep.AddReplayed(1)
+				}()
+			}
+		}()
+	}
 	for i, c := range cs {
-		runRandomCase(j, c)
-		rep.AddReplayed(1)
 		if c.N > maxN {
 			maxN = c.N
 		}
 		if i < 2 {
 			rep.Sample(map[string]any{"random_case": c})
 		}
+		next <- c
+	}
+	close(next)
+	wg.Wait()
+	if harnessPanic != nil {
+		panic(harnessPanic)
 	}
 	rep.SetExtra(kind+"_random_cases", len(cs))
 	rep.SetExtra(kind+"_largest_universe", maxN)
